@@ -341,3 +341,65 @@ class IdentityScn(Scenario):
 
 SCENARIOS = {s.name: s for s in (BaseCommunityScn(), DiscoveryScn(), DHTScn(), DHTDiscoveryScn(), TunnelScn(),
                                  HiddenScn(), PexScn(), AttestationScn(), IdentityScn())}
+
+
+# ------------------------------------------------------------------------------------------------ multiplexed node
+class NodeView:
+    """Presents one overlay of a multi-overlay node as ``.ov`` so that the single-overlay scripts can drive it."""
+
+    def __init__(self, node: SimNode, ov) -> None:  # noqa: ANN001
+        self.node = node
+        self.ov = ov
+        self.name = node.name
+        self.world = node.world
+        self.my_peer = node.my_peer
+
+    @property
+    def address(self) -> tuple:
+        return self.node.address
+
+    def call(self, fn, *a, **k):  # noqa: ANN001, ANN002, ANN003, ANN201
+        return self.node.call(fn, *a, **k)
+
+    def acall(self, fn, *a, **k):  # noqa: ANN001, ANN002, ANN003, ANN201
+        return self.node.acall(fn, *a, **k)
+
+
+class MultiScn(Scenario):
+    """
+    Several overlays multiplexed on one real UDPEndpoint per node, sharing one Network, the way ipv8_service.IPv8
+    loads them: Discovery + DHTDiscovery + HiddenTunnel + Attestation + Identity.
+    """
+
+    name = "multi"
+    n_nodes = 4
+    parts = ("discovery", "dhtdiscovery", "hidden", "attestation", "identity")
+
+    async def build(self, c, n: int | None = None) -> list[SimNode]:  # noqa: ANN001
+        nodes = []
+        for i in range(n or self.n_nodes):
+            node = SimNode(c.world, f"n{i}", f"1.0.0.{i + 1}", ip6=f"fd00::{i + 1}")
+            await node.open("udp")
+            node.ovs = {}
+            for part in self.parts:
+                scn = SCENARIOS[part]
+                node.ovs[part] = node.add(scn.overlay_class(), scn.settings(node, i))
+            node.ov = node.ovs["discovery"]
+            nodes.append(node)
+        return nodes
+
+    async def script(self, c, nodes, step=_nop) -> None:  # noqa: ANN001
+        k = 0
+        for part in self.parts:
+            scn = SCENARIOS[part]
+            views = [NodeView(n, n.ovs[part]) for n in nodes]
+            if part == "dhtdiscovery":
+                # the late-joiner trick of the stand-alone script needs a 5th node; reuse the 4-node DHT script
+                await DHTScn.script(scn, c, views[:4], step)
+            else:
+                await scn.script(c, views[:scn.n_nodes], step)
+            k += 1
+            await step(100 + k, f"part {part} done")
+
+
+SCENARIOS["multi"] = MultiScn()
